@@ -167,7 +167,10 @@ def conjugate_gradient(op, x, rhs, niter, callback=None):
         raise TypeError('`x` {!r} is not in the domain of `op` {!r}'
                         ''.format(x, op.domain))
 
-    r = op(x)
+    # `r` is updated in place, so it must not be what `op(x)` hands back
+    # (may be a view of `x`)
+    r = op.range.element()
+    op(x, out=r)
     r.lincomb(1, rhs, -1, r)       # r = rhs - A x
     p = r.copy()
     d = op.domain.element()  # Extra storage for storing A x
@@ -251,9 +254,13 @@ Conjugate_gradient_on_the_normal_equations>`_.
         raise TypeError('`x` {!r} is not in the domain of `op` {!r}'
                         ''.format(x, op.domain))
 
-    d = op(x)
+    # `d` and `p` are updated in place, so they must not be what the
+    # operators hand back (may be views of their arguments)
+    d = op.range.element()
+    op(x, out=d)
     d.lincomb(1, rhs, -1, d)               # d = rhs - A x
-    p = op.derivative(x).adjoint(d)
+    p = op.domain.element()
+    op.derivative(x).adjoint(d, out=p)
     s = p.copy()
     q = op.range.element()
     sqnorm_s_old = s.norm() ** 2  # Only recalculate norm after update
